@@ -813,6 +813,12 @@ func (b *BlockWise[C]) processReceivedMessage(w *responsewriter.ResponseWriter[C
 			next(w, r)
 			return nil
 		}
+		if blockType == message.Block2 && num > 0 && sentRequest != nil && (sentRequest.Code() == codes.POST || sentRequest.Code() == codes.PUT) {
+			// A middle block of a response without reassembly state (e.g. a duplicate arriving after
+			// the body was completed): restarting from block 0 would send the POST/PUT again without
+			// its body, which the peer cannot tell from a new request.
+			return errors.New("cannot restart the transfer of a POST/PUT response from a middle block")
+		}
 	}
 	cachedReceivedMessage, closeCachedReceivedMessage, err := b.getCachedReceivedMessage(cachedReceivedMessageGuard, r, tokenStr, validUntil)
 	if err != nil {
